@@ -21,7 +21,8 @@ RULE = ('batch cases: every program of the batch is compiled through compile_pro
         'decl cases: one structured clause; the whole compiled text is compared with the model text, and the order of the '
         '`V_x = variable()` lines with the first-occurrence order computed from the clause syntax. SIZE CLASS: every batch has a '
         'program, and every tenth decl case is a clause, with 64-300 variable occurrences (boundary sizes 99-102, 128, 255-257) in wide '
-        'lists / compound terms in head and body (distinct, repeated and anonymous variables). Non-trivial: a batch that '
+        'lists / compound terms in head and body (distinct, repeated and anonymous variables); 2 batches (thorough 10) contain a program '
+        'of 8-17 kB made of hundreds of small clauses. Non-trivial: a batch that '
         'contains a program with a clause with >= 2 fresh variables, >= 1 if-then-else and >= 1 anonymous variable; a decl case '
         'with >= 2 declared variables of which one occurs more than once. Distinct by hash of the case.')
 TRUSTED_BASE = [
@@ -61,8 +62,8 @@ def _noise(rng, g):
     # valid programs that advance every counter a lot before the program under test
     return g.program(nclauses=3, rich=0.8)
 
-def gen_batch(rng, g, sg, nprog, nproc, npairs=2):
-    programs = []
+def gen_batch(rng, g, sg, nprog, nproc, npairs=2, large=None):
+    programs = [large] if large else []
     related = {}            # program index -> indices of noise texts that are look-alikes of it
     for i in range(nprog):
         k = rng.random()
@@ -116,7 +117,15 @@ def gen(rng, tier):
     nbatch, nprog, nproc, ndecl = (12, 7, 8, 240) if tier == 'quick' else (100, 10, 12, 2500)
     g = Gen(rng, special=0.15)
     sg = SGen(rng)
-    batches = [gen_batch(rng, g, sg, nprog, nproc) for _ in range(nbatch)]
+    # SIZE CLASS of texts: some batches contain a program of 8-17 kB made of hundreds of small clauses (fact table / many clauses
+    # per predicate; generator shared with C10)
+    from props import c10 as _c10
+    nlarge = 2 if tier == 'quick' else 10
+    def large(i):
+        if i >= nlarge:
+            return None
+        return _c10.g_large(rng, ['facts', 'clauses', 'facts+'][i % 3], rng.choice([8200, 8700, 10000] if tier == 'quick' else [8200, 10000, 16400, 20000]))[0]
+    batches = [gen_batch(rng, g, sg, nprog, nproc, large=large(i)) for i in range(nbatch)]
     decls = [{'kind': 'decl', 'clause': wide_clause(rng) if i % 10 == 9 else sg.clause()} for i in range(ndecl)]
     cases = []
     step = max(1, len(decls) // max(1, len(batches)))
@@ -352,12 +361,13 @@ def shrink(case):
 def distribution(cases, obs):
     d = {'kinds': {}, 'programs': 0, 'rich_programs': 0, 'failing_programs': 0, 'process_observations': 0,
          'hash_seeds': 0, 'option_modes': {}, 'noise_before_program': {}, 'declared_per_clause': {},
-         'variable_occurrences_per_clause': {}}
+         'variable_occurrences_per_clause': {}, 'programs_over_8kB': 0}
     seeds = set()
     for c, o in zip(cases, obs):
         d['kinds'][c['kind']] = d['kinds'].get(c['kind'], 0) + 1
         if c['kind'] == 'batch' and isinstance(o, dict):
             d['programs'] += len(c['programs'])
+            d['programs_over_8kB'] += sum(1 for t in c['programs'] if len(t) >= 8192)
             d['rich_programs'] += sum(1 for x in o['rich'] if x)
             d['failing_programs'] += sum(1 for ds in o['digests'] if ds and ds[0].startswith('EXC'))
             d['process_observations'] += len(c['programs']) * o['observations']
